@@ -224,7 +224,7 @@ func ruleR13b(c *Check, g *gateInfo, rule string) {
 		c.Require(why == "", rule, "clear-after-success/"+c.P.FuncName(ex.ExecMethod), "the taint is cleared only after the completion (outputs + result stored) returned nil", "taint removal is "+why, c.P.InstrPos(s))
 		// only when tainted: dominated by a true-branch on a bool parameter / IsTainted result
 		okT := true
-		if ok, _ := engine.PathExists(ex.ExecMethod, nil, engine.IsInstr(s), engine.PathQuery{CutEdge: engine.CutEdgesWhere(func(a engine.Atom) bool {
+		taintedEdge := engine.CutEdgesWhere(func(a engine.Atom) bool {
 			if a.Op != "true" {
 				return false
 			}
@@ -237,8 +237,22 @@ func ruleR13b(c *Check, g *gateInfo, rule string) {
 				}
 			}
 			return false
-		})}); ok {
+		})
+		if ok, _ := engine.PathExists(ex.ExecMethod, nil, engine.IsInstr(s), engine.PathQuery{CutEdge: taintedEdge}); ok {
 			okT = false
+			// the guard may sit in the helper that is handed the flag (`consumeTaint(ctx, target, wasTainted)`)
+			if hc, isCall := s.(*ssa.Call); isCall {
+				if h := hc.Call.StaticCallee(); h != nil && h != clear && len(h.Blocks) > 0 {
+					inner := callsToFn(c, h, clear)
+					guarded := len(inner) > 0
+					for _, ic := range inner {
+						if r, _ := engine.PathExists(h, nil, engine.IsInstr(ic), engine.PathQuery{CutEdge: taintedEdge, Shallow: true}); r {
+							guarded = false
+						}
+					}
+					okT = guarded
+				}
+			}
 		}
 		c.Require(okT, rule, "clear-only-if-tainted/"+c.P.FuncName(ex.ExecMethod), "the removal is guarded by the tainted flag", "the taint entry is removed even when the target was not tainted", c.P.InstrPos(s))
 	}
